@@ -75,13 +75,13 @@ class SymbolicSX:
         return R.ST.decide(R.B(c))
 
 
-class ConcreteViolation(Exception):
+class ConcreteViolation(BaseException):
     def __init__(self, label, detail=None):
-        Exception.__init__(self, label)
+        BaseException.__init__(self, label)
         self.label, self.detail = label, detail
 
 
-class ConcreteAbort(Exception):
+class ConcreteAbort(BaseException):
     pass
 
 
